@@ -62,6 +62,7 @@ ALTS = {
     "zero_rtt": [True],
     "ncid": ["s8", "s8c8", "s20c4", "s1c1"],
     "v6": [True],
+    "ts": ["swap_pairs", "descending"],
 }
 
 
@@ -212,12 +213,27 @@ def cases(tier, seed):
                "states": ns if i == 0 else 0, "transitions": nt if i == 0 else 0}
 
 
+def restamp(pk, mode):
+    """capture timestamps are unique per datagram but need not increase in file order"""
+    if not mode:
+        return
+    ts = [p.ts for p in pk]
+    if mode == "descending":
+        ts = ts[::-1]
+    else:
+        for i in range(0, len(ts) - 1, 2):
+            ts[i], ts[i + 1] = ts[i + 1], ts[i]
+    for p, t in zip(pk, ts):
+        p.ts = t
+
+
 def execute(sc, seed, conn=None):
     v6 = bool(sc.get("v6"))
     if conn is None:
         conn = scen.quic_conn(to_model(sc), seed)
     ends = cap.Ends(5, v6=v6)
     pk = cap.stamp(scen.quic_packets(conn), {0: ends})
+    restamp(pk, sc.get("ts"))
     res = scen.run(pk, conn.keylog)
     try:
         an = scen.analyse(res)
